@@ -61,8 +61,9 @@ def main():
         res["valid_seed"] = bool(res["patch_applies"] and rc0 == 0 and rc1 != 0 and "1466 passed" in res["pinned_tests_on_patched_tree"])
         dst = os.path.join("/verif/seeded", sid)
         os.makedirs(dst, exist_ok=True)
-        shutil.copy(os.path.join(out, "patch.diff"), dst)
-        shutil.copy(demo, dst)
+        if os.path.realpath(out) != os.path.realpath(dst):
+            shutil.copy(os.path.join(out, "patch.diff"), dst)
+            shutil.copy(demo, dst)
         meta_out = {"property": pid, "summary": meta.get("summary"), "needs_to_manifest": meta.get("needs_to_manifest"), "files_changed": meta.get("files_changed"),
                     "confirmed": {"demo_exit_unchanged": rc0, "demo_exit_patched": rc1, "pinned_tests_patched": res["pinned_tests_on_patched_tree"], "valid": res["valid_seed"]},
                     "what_we_ran": "scratch copy of /repo's working tree + patch; pinned suite; demo.py on both trees; ./vcheck <ID> --tier %s with VERIF_REPO=<scratch copy>" % tier,
